@@ -1016,3 +1016,25 @@ pub fn rsa_kem_r_fast(pkcs1_der: &[u8], c: &[u8]) -> MR<Vec<u8>> {
     out.extend_from_slice(&b);
     Ok(out)
 }
+
+/// Construct an RSA-KEM input r (two top bits 01) whose ciphertext c = r^e mod n starts with
+/// `zeros` zero bytes: pick such a c, take r = c^d (CRT, verified with the public operation).
+pub fn rsa_aimed_r(pkcs1_priv_der: &[u8], pk: &RsaPub, seed: u64, zeros: usize) -> MR<Option<Vec<u8>>> {
+    for t in 0..96u64 {
+        let mut c = crate::rng::det_bytes(seed, 0xc0de + t, 512);
+        for b in c.iter_mut().take(zeros) {
+            *b = 0;
+        }
+        if c[zeros] == 0 {
+            c[zeros] = 1;
+        }
+        let r = rsa_kem_r_fast(pkcs1_priv_der, &c)?;
+        if r[0] & 0xc0 == 0x40 {
+            if rsa_kem_c(pk, &r) != c {
+                return Err("rsa_aimed_r: r^e != c".into());
+            }
+            return Ok(Some(r));
+        }
+    }
+    Ok(None)
+}
